@@ -677,19 +677,6 @@ pub fn consumer_probes<Q: QueueApi>(r: &Recipe, k: usize, cn: &mut Counters, sin
                     out.iter().map(|x| x.1).collect::<Vec<_>>() == expected.iter().map(|x| x.1).collect::<Vec<_>>() && ids.len() == l && out.iter().all(|x| reference.contains(x))
                 };
                 if !same {
-                    let mut props = props;
-                    if !exact_ids {
-                        // sorted iterator: the right number of distinct stored elements in the wrong
-                        // priority order is a matter of sorted consumption (C06) only, not of the
-                        // iterator protocol (C13)
-                        let mut ids: Vec<u32> = out.iter().map(|x| x.0).collect();
-                        ids.sort_unstable();
-                        let l = ids.len();
-                        ids.dedup();
-                        if ids.len() == l && l == expected.len() && out.iter().all(|x| reference.contains(x)) {
-                            props.retain(|p| *p != "C13");
-                        }
-                    }
                     let v = Viol { monitor: "M-CONSUMER", op: format!("{}.{}", label, cname), kind: kind.name(), detail: format!("{}.{} with k={} on {} elements yields {:?} but plain next() implies {:?}", label, cname, k, n, out, expected), props };
                     sink.viol(&v.props, &v.sig(), &v.detail, case);
                 }
@@ -748,11 +735,36 @@ pub fn consumer_probes<Q: QueueApi>(r: &Recipe, k: usize, cn: &mut Counters, sin
             r.map(ids_owned)
         }));
         judge("drain()", how, vec!["C13", "C16"], true, &ref_iter, res, cn, sink);
+        // sorted iterator, two separate questions. (a) C13: does the consumer, which may reach
+        // specialised methods (nth, nth_back, fold, ...), yield what the same consumer yields when
+        // only next / next_back / size_hint reach the iterator? (b) C06: is that plain-protocol
+        // output what a correctly sorted sequence implies?
+        let plain = catch_unwind(AssertUnwindSafe(|| {
+            let st = build::<Q>(r);
+            Q::so_consume_plain(st.q, how, k)
+        }));
         let res = catch_unwind(AssertUnwindSafe(|| {
             let st = build::<Q>(r);
             Q::so_consume(st.q, how, k)
         }));
-        judge("into_sorted_iter()", how, vec!["C13", "C06"], false, &ref_sorted, res, cn, sink);
+        match (&plain, res) {
+            (Ok(Some(pl)), Ok(Some(out))) => {
+                cn.consumer_probes += 1;
+                let mut ids: Vec<u32> = out.iter().map(|x| x.0).collect();
+                ids.sort_unstable();
+                let l = ids.len();
+                ids.dedup();
+                let same = out.iter().map(|x| x.1).collect::<Vec<_>>() == pl.iter().map(|x| x.1).collect::<Vec<_>>() && ids.len() == l && out.iter().all(|x| ref_sorted.contains(x));
+                if !same {
+                    let cname = CONSUMERS[how];
+                    let v = Viol { monitor: "M-CONSUMER", op: format!("into_sorted_iter().{}", cname), kind: kind.name(), detail: format!("into_sorted_iter().{} with k={} on {} elements yields {:?} but over plain next()/next_back() calls the same consumer yields {:?}", cname, k, n, out, pl), props: vec!["C13", "C06"] };
+                    sink.viol(&v.props, &v.sig(), &v.detail, serde_json::json!({"mode":"iters","consumer":how,"iterator":"into_sorted_iter()","k":k,"kind":kind,"recipe":r}));
+                }
+            }
+            (_, r2 @ Err(_)) => judge("into_sorted_iter()", how, vec!["C13", "C06"], false, &ref_sorted, r2, cn, sink),
+            _ => {}
+        }
+        judge("into_sorted_iter()", how, vec!["C06"], false, &ref_sorted, plain, cn, sink);
         let res = catch_unwind(AssertUnwindSafe(|| {
             let mut st = build::<Q>(r);
             Q::im_consume(&mut st.q, how, k)
